@@ -342,8 +342,11 @@ pub fn run(params: &Params) {
         }
       }
       _ => {
-        // issue a credential whose status entry points at a service
-        let sid = services[ctx::choose(services.len())].clone();
+        // issue a credential whose status entry points at a service; sometimes at the service of the document whose id
+        // carries ANOTHER DID (it is a service of this issuer's document all the same; indices 0..63 are set in it)
+        let foreign_sid = "did:sim:otherissuer#rev0".to_owned();
+        let point_at_foreign = foreign_same_fragment && ctx::choose(5) == 0;
+        let sid = if point_at_foreign { foreign_sid.clone() } else { services[ctx::choose(services.len())].clone() };
         let index = if !mentioned.is_empty() && ctx::choose(2) == 0 {
           let m: Vec<u32> = mentioned.iter().copied().collect();
           m[ctx::choose(m.len())]
@@ -353,12 +356,16 @@ pub fn run(params: &Params) {
           v
         };
         mentioned.insert(index);
-        let with_query = ctx::choose(2) == 0;
+        let index = if point_at_foreign { [0u32, 5, 63, 64, 70, 1000][ctx::choose(6)] } else { index };
+        let with_query = ctx::choose(2) == 0 && !point_at_foreign;
         let status_id = if with_query {
           format!("{}?index={index}#{}", issuer.did, sid.rsplit('#').next().unwrap())
         } else {
           sid.clone()
         };
+        if point_at_foreign {
+          ctx::stat("probe.status_points_at_service_with_foreign_did");
+        }
         let mut cred = serde_json::json!({
           "@context": "https://www.w3.org/2018/credentials/v1",
           "id": format!("https://cred.example/{step}"),
@@ -419,7 +426,12 @@ pub fn run(params: &Params) {
           FailFast::AllErrors,
         )
       });
-      let member = vm.get(&sid).map(|m| m.contains(&index));
+      let member = if sid == "did:sim:otherissuer#rev0" {
+        // prefilled with 0..=63 at set-up and never updated; present in every version that has services
+        if v >= 2 { Some(index < 64) } else { None }
+      } else {
+        vm.get(&sid).map(|m| m.contains(&index))
+      };
       match (res, member) {
         (Err(p), _) => ctx::violation("C06", "C06.validation_reports_exactly_members", "validation/panic", format!("validate panicked: {p}")),
         (Ok(Ok(_)), Some(true)) => ctx::violation(
